@@ -407,7 +407,12 @@ class Kernel(Module):
 
         # Recurse, if necessary
         for sub_module_name, sub_module in self.named_sub_kernels():
-            new_kernel.__setattr__(sub_module_name, sub_module.expand_batch(new_batch_shape))
+            # sub-kernels held in containers have dotted names ("kernels.0"): replace them inside their parent
+            *parent_names, leaf_name = sub_module_name.split(".")
+            parent = new_kernel
+            for parent_name in parent_names:
+                parent = getattr(parent, parent_name)
+            setattr(parent, leaf_name, sub_module.expand_batch(new_batch_shape))
 
         return new_kernel
 
